@@ -51,6 +51,7 @@ def correct_last_timing(c):
 TEXTS = ["HELLO THERE", "GENERAL KENOBI", "YOU ARE A BOLD ONE", "OK", "A", "it's 5 o'clock.", "One, two!", "x y z",
          "THE QUICK BROWN FOX JUMPS", "over", "12345 67890",
          "Seg\u00fan el men\u00fa", "\u00e1\u00e9\u00ed\u00f3\u00fa \u00e7\u00f7\u00d1\u00f1\u2588", "[ab]=c/d; e+f<g>h? #1 $2 %3 &4@6", "(5) \"q\" it's: x-y, z.",
+         "\u00c9l no viene", "\u00a1Hola!", "MA\u00d1ANA \u00c1 \u00fc", "\u00d3",
          "A ROW OF EXACTLY THIRTY-TWO CHAR", "thirty-one characters in this row"[:31], "ABCDEFGHIJKLMNOPQRSTUVWXYZ012345"]
 assert [len(t_) for t_ in TEXTS[-3:]] == [32, 31, 32]
 
@@ -59,12 +60,29 @@ def norm(s):
     return " ".join(s.split())
 
 
+STAND_IN = {"\u00c9": "E", "\u00a1": "!", "\u00c1": "A", "\u00fc": "u", "\u00d3": "O"}     # extended characters and the basic ones sent before them
+
+
+def row_words(text, dbl=False):
+    """code words of a row: basic characters two per word; an extended character is sent as its stand-in basic
+    character followed by the two-byte extended code (which overwrites the stand-in)"""
+    ws, run = [], ""
+    for ch in text:
+        if ch in STAND_IN:
+            ws += C.text_words(run + STAND_IN[ch])
+            run = ""
+            ws += [C.extended(ch)] * (2 if dbl else 1)
+        else:
+            run += ch
+    return ws + (C.text_words(run) if run else [])
+
+
 def rollup_doc(rng, depth, rows, texts, dbl, drop, gaps, ru_every_line, t0=40):
     lines, t = [], t0
     ctl = lambda w: [w, w] if dbl else [w]
     ru = C.ctrl({2: "RU2", 3: "RU3", 4: "RU4"}[depth])
     for i, (row, text) in enumerate(zip(rows, texts)):
-        ws = (ctl(ru) if (ru_every_line or i == 0) else []) + ctl(C.ctrl("CR")) + ctl(C.pac(row, rng.choice([0, 4]))) + C.text_words(text)
+        ws = (ctl(ru) if (ru_every_line or i == 0) else []) + ctl(C.ctrl("CR")) + ctl(C.pac(row, rng.choice([0, 4]))) + row_words(text, dbl)
         lines.append((C.timecode(t, drop), ws))
         t += len(ws) + gaps[i]
     lines.append((C.timecode(t, drop), ctl(C.ctrl("CR"))))
@@ -77,7 +95,7 @@ def painton_doc(rng, rowsets, dbl, drop, gaps, t0=40):
     for i, rows in enumerate(rowsets):
         ws = ctl(C.ctrl("RDC"))
         for row, text in rows:
-            ws += ctl(C.pac(row, 0)) + C.text_words(text)
+            ws += ctl(C.pac(row, 0)) + row_words(text, dbl)
         lines.append((C.timecode(t, drop), ws))
         t += len(ws) + gaps[i]
     lines.append((C.timecode(t, drop), ctl(C.ctrl("RDC"))))
